@@ -862,7 +862,12 @@ XalanTransformer::setStylesheetParam(
             const XalanDOMString&    qname,
             const XalanDOMString&    expression)
 {
-    m_params[qname].m_expression = expression;
+    // Setting a parameter replaces its previous value, whichever way
+    // that one was given.
+    XalanParamHolder&    theParam = m_params[qname];
+
+    theParam.m_expression = expression;
+    theParam.m_value = XObjectPtr();
 }
 
 void
@@ -870,7 +875,10 @@ XalanTransformer::setStylesheetParam(
             const XalanDOMString&    qname,
             XObjectPtr               object)
 {
-    m_params[qname].m_value = object;
+    XalanParamHolder&    theParam = m_params[qname];
+
+    theParam.m_value = object;
+    theParam.m_expression.clear();
 }
 
 
